@@ -128,7 +128,13 @@ func (s *solver) check(extra *term, vars []*term) (satResult, model) {
 		emitDefs(&sb, extra)
 		fmt.Fprintf(&sb, "(push 1)\n(assert %s)\n", extra.ref())
 	}
-	sb.WriteString("(check-sat)\n")
+	if s.kind == "z3-qfbv" {
+		// z3's incremental core (after push) skips the QF_BV preprocessing/bit-blasting
+		// pipeline; for arithmetic-heavy obligations (C35) the tactic is ~10x faster.
+		sb.WriteString("(check-sat-using qfbv)\n")
+	} else {
+		sb.WriteString("(check-sat)\n")
+	}
 	s.send(sb.String())
 	s.queries++
 	line := s.readLine()
